@@ -5,6 +5,7 @@ Every program is plain text; the oracle reads the text with its own reader (vlib
 Bounds: <= 3 finite variables, <= 3 numeric variables, <= 7 top-level statements, if-nesting <= 2, elif chains <= 3,
 polynomial degree <= 2, <= 3 symbolic parameters."""
 import random
+import re
 
 COPS = ["==", "/=", "<", "<=", ">", ">="]
 
@@ -143,7 +144,14 @@ class Gen:
             elif len(self.num) >= 2 and k < 0.62:
                 a, b = r.sample(self.num, 2)
                 # simultaneous assignment: only linear exchanges keep the class
-                out.append(ind + f"{a}, {b} = {b}, {a}" if r.random() < 0.5 else ind + f"{a}, {b} = {a} + {b}, {a}")
+                kk = r.random()
+                if kk < 0.42:
+                    out.append(ind + f"{a}, {b} = {b}, {a}")
+                elif kk < 0.84:
+                    out.append(ind + f"{a}, {b} = {a} + {b}, {a}")
+                else:
+                    # a constant right-hand side whose target is read by a later right-hand side (reads the OLD value)
+                    out.append(ind + f"{a}, {b} = {r.choice(['2', '0', '1/2'])}, {b} + {a}")
             else:
                 out.append(ind + self.num_update(r.choice(self.num)))
         return out
@@ -222,6 +230,14 @@ def programs(quick, seed, count=None):
         rnd = random.Random(f"polar-family-{seed}-{i}")
         g = Gen(rnd, symbolic=(i % 3 != 0))
         text, goals = g.program()
+        if i % 6 == 5:
+            # variant: one finitely-valued variable is left uninitialised (Polar: symbolic initial value f0) -- its
+            # type has to keep f0 wherever the variable can still hold it (guard false from the start, branch not taken)
+            lines = text.split("\n")
+            cand = [k for k, ln in enumerate(lines) if re.match(r"^[fgh] = ", ln)]
+            if cand:
+                del lines[random.Random(f"polar-family-uninit-{seed}-{i}").choice(cand)]
+                text = "\n".join(lines)
         if quick:
             goals = goals[:4]
         out.append((f"gen/s{seed}/{i}", text, goals))
